@@ -140,6 +140,29 @@ def _shape_run(self):
 Shape = _mk('Shape', __name__, fields=('kind', 'n'), extra={'run': _shape_run})
 
 
+def _flip_run(self):
+    """A task whose result changes from one execution to the next (its inputs live outside its
+    parameters): a big value first, then None, then a small value.  Executions are counted in a file
+    next to the world file, so the count survives process boundaries."""
+    import os
+    WORLD.rec('start', (type(self).__module__, type(self).__qualname__, self.cache_key))
+    path = (os.environ.get('VERIF_WORLD_FILE') or os.path.join(os.environ.get('TMPDIR', '/tmp'), f'flip_{os.getpid()}')) + '.flip_' + self.cache_key
+    try:
+        n = int(open(path).read() or 0)
+    except (OSError, ValueError):
+        n = 0
+    with open(path, 'w') as f:
+        f.write(str(n + 1))
+    seq = {'none-second': [('first', self.p, ['x' * 50] * 40), None, ('third', self.p)],
+           'none-first': [None, ('second', self.p, ['y' * 50] * 40), None],
+           'falsy': [('first', self.p), 0, '']}[self.kind]
+    return seq[min(n, 2)]
+
+
+Flip = _mk('Flip', __name__, fields=('kind', 'p'), extra={'run': _flip_run})
+JFlip = _mk('JFlip', __name__, fields=('kind', 'p'), extra={'run': _flip_run}, cache=JsonCache())
+
+
 class Unpicklable:
     def __reduce__(self):
         raise TypeError('this object refuses to be pickled')
